@@ -435,6 +435,13 @@ func (fi *FuncInfo) Visit(node ast.Node) ast.Visitor {
 			// for-range loop over a channel is blocking.
 			fi.markBlocking(fi.visitorStack)
 		}
+		if tp, ok := fi.pkgInfo.TypeOf(n.X).(*types.TypeParam); ok {
+			// The range expression has a type parameter type: in this instance
+			// it is ranged over with the corresponding type argument.
+			if _, isChan := fi.resolver.Substitute(tp).Underlying().(*types.Chan); isChan {
+				fi.markBlocking(fi.visitorStack)
+			}
+		}
 		if fi.loopReturnIndex >= 0 {
 			// Already in a loop so just continue walking.
 			return fi
